@@ -130,7 +130,8 @@ impl RetryPolicy {
                         #[allow(clippy::cast_precision_loss)]
                         // Precision loss is acceptable for jitter calculation
                         let jitter_ms = (delay.as_millis() as f64 * jitter) as u64;
-                        delay += Duration::from_millis(jitter_ms);
+                        // A Retry-After hint near Duration::MAX must not overflow
+                        delay = delay.saturating_add(Duration::from_millis(jitter_ms));
                     }
 
                     sleep(delay).await;
@@ -139,11 +140,14 @@ impl RetryPolicy {
                     // Clamp to [0, max_backoff]: a negative multiplier (reachable through
                     // CASCETTE_BACKOFF_MULTIPLIER) must not reach from_secs_f64, which panics
                     // on negative input
-                    backoff = Duration::from_secs_f64(
+                    // ... nor a value from_secs_f64 cannot represent: u64::MAX seconds of
+                    // max_backoff (CASCETTE_MAX_BACKOFF) round up to 2^64 as f64
+                    backoff = Duration::try_from_secs_f64(
                         (backoff.as_secs_f64() * self.multiplier)
                             .min(self.max_backoff.as_secs_f64())
                             .max(0.0),
-                    );
+                    )
+                    .unwrap_or(self.max_backoff);
                 }
             }
         }
